@@ -1,27 +1,96 @@
-"""Integer byte / bit-chunk codecs, formatter width arithmetic and power-of-two parsing (C07; C17 where the unit
-exercises hand-managed buffers under CBMC's memory checks)."""
+"""Integer byte / bit-chunk codecs, non-power-of-two digit generation + formatter width arithmetic, power-of-two
+parsing (C07; C17 where the unit exercises hand-managed buffers under CBMC's memory checks).
+
+Verus vocabulary: contracts/lib/codecs_fmt_stubs.rs (mirrors of PreparedWord/Dword/Medium/Large, radix_info),
+codecs_digit_lemmas.rs (dval = positional value of a digit string, medium_value), codecs_writer_stub.rs (DigitWriter).
+Annotated copies: contracts/annot/integer/fmt_npt/."""
+
+VERUS = {
+    # fmt/non_power_two.rs width() of PreparedWord / PreparedDword / PreparedMedium / PreparedLarge:
+    #   ret == number of digits write() emits, read off the structure; PreparedLarge: top chunk +
+    #   (digits_per_word * CHUNK_LEN) << STORED level of every big chunk
+    'int_fmt_width': {'file': 'int_fmt_width.rs', 'w32': True},
+    # fmt/non_power_two.rs PreparedWord::new (positional digits of a word, padded to min_digits, no superfluous leading
+    # zero), PreparedWord::write, repr_to_chunk_buffer, PreparedMedium::new (structure value == number, groups < range),
+    # PreparedMedium::write (emits exactly medium_digits digits < radix whose positional value is the number)
+    'int_fmt_digits': {'file': 'int_fmt_digits.rs', 'w32': True},
+}
 
 _B3 = 'magnitudes of at most 3 words (every DoubleWord through RefSmall; RefLarge with exactly 3 fully symbolic 64-bit ' \
-      'words, top word != 0), both signs'
+      'words, top word != 0)'
+
+
+def _h(names, kind, text, **kw):
+    key = 'domain' if kind == 'complete' else 'bound'
+    return {n: dict({'kind': kind, key: text}, **kw) for n in names}
+
+
+_BYTES = {}
+# (A) value -> bytes: the produced bytes MEAN the value (unsigned / two's complement), per codec and sign
+_BYTES.update(_h(['vk_int_bytes_to_small_le', 'vk_int_bytes_to_small_be', 'vk_int_bytes_to_small_sle_pos',
+                  'vk_int_bytes_to_small_sle_neg', 'vk_int_bytes_to_small_sbe_pos', 'vk_int_bytes_to_small_sbe_neg'],
+                 'complete', 'every DoubleWord (the whole RefSmall domain), the stated codec and sign'))
+_BYTES.update(_h(['vk_int_bytes_to_large3_le', 'vk_int_bytes_to_large3_be', 'vk_int_bytes_to_large3_sle_pos',
+                  'vk_int_bytes_to_large3_sle_neg', 'vk_int_bytes_to_large3_sbe_pos', 'vk_int_bytes_to_large3_sbe_neg'],
+                 'bounded', _B3 + ': the 3-word half'))
+# be == reversed le
+_BYTES.update(_h(['vk_int_bytes_rev_small_pos', 'vk_int_bytes_rev_small_neg'], 'complete', 'every DoubleWord'))
+_BYTES.update(_h(['vk_int_bytes_rev_large3_pos', 'vk_int_bytes_rev_large3_neg'], 'bounded', _B3 + ': the 3-word half'))
+# (B) bytes -> value on arbitrary byte strings
+_BYTES.update(_h(['vk_int_bytes_from_le_0_16', 'vk_int_bytes_from_be_0_16', 'vk_int_bytes_from_sle_0_16',
+                  'vk_int_bytes_from_sbe_0_16'], 'complete',
+                 'every byte string of length 0..=16 (the whole fast path), one literal length at a time'))
+_BYTES.update(_h(['vk_int_bytes_from_le_17_25', 'vk_int_bytes_from_be_17_25', 'vk_int_bytes_from_sle_17_25',
+                  'vk_int_bytes_from_sbe_17_25'], 'bounded', 'every byte string of length 17..=25'))
+# (C) composition on a concrete palette
+_BYTES.update(_h(['vk_int_bytes_roundtrip_concrete_large', 'vk_int_bytes_roundtrip_concrete_small'], 'bounded',
+                 '9 concrete values at word / byte boundaries (-(2^128), -(2^184), 2^191, ...)'))
+# quick tier: the negative signed forms (where the sign-byte logic lives), one unsigned form, the parsers;
+# the remaining instances repeat the same code with the other endianness / sign
+for _n in ['vk_int_bytes_to_small_be', 'vk_int_bytes_to_small_sle_pos', 'vk_int_bytes_to_small_sbe_pos',
+           'vk_int_bytes_to_large3_be', 'vk_int_bytes_to_large3_sle_pos', 'vk_int_bytes_to_large3_sbe_pos',
+           'vk_int_bytes_to_large3_sbe_neg', 'vk_int_bytes_rev_small_pos', 'vk_int_bytes_rev_large3_pos',
+           'vk_int_bytes_rev_large3_neg', 'vk_int_bytes_from_le_17_25', 'vk_int_bytes_from_be_17_25',
+           'vk_int_bytes_from_sbe_17_25', 'vk_int_bytes_roundtrip_concrete_large']:
+    _BYTES[_n]['tier'] = 'thorough'
+
+_C3 = '3-word inputs: two fully symbolic low words, top word from the concrete palette in the harness (the control flow ' \
+      'of the chunk codecs depends only on bit length and chunk size), literal chunk size'
+_CHUNKS = {}
+_CHUNKS.update(_h(['vk_int_chunks_large3_cb128', 'vk_int_chunks_large3_cb64', 'vk_int_chunks_large3_cb65',
+                   'vk_int_chunks_large3_cb63', 'vk_int_chunks_large3_cb200', 'vk_int_chunks_large3_cb7'], 'bounded', _C3))
+_CHUNKS.update(_h(['vk_int_chunks_small_cb1', 'vk_int_chunks_small_cb7'], 'bounded',
+                  'every DoubleWord below 2^13 (cb1) / 2^90 (cb7): at most 13 chunks'))
+_CHUNKS.update(_h(['vk_int_chunks_small_cb63', 'vk_int_chunks_small_cb64', 'vk_int_chunks_small_cb65',
+                   'vk_int_chunks_small_cb127', 'vk_int_chunks_small_cb128', 'vk_int_chunks_small_cb129'], 'complete',
+                  'every DoubleWord (the whole RefSmall domain) for the literal chunk size'))
+_CHUNKS.update(_h(['vk_int_chunks_from_cb1', 'vk_int_chunks_from_cb64', 'vk_int_chunks_from_cb65',
+                   'vk_int_chunks_from_cb100', 'vk_int_chunks_from_none'], 'bounded',
+                  'three chunks of 2, 0, 1 fully symbolic words (chunks wider than the chunk size), literal chunk size'))
+
+_PARSE = {}
+_PARSE.update(_h(['vk_int_parse_p2_word'], 'bounded',
+                 'every ASCII string of length 0..=5, radix in {2, 4, 8, 16, 32}: parse_word and parse'))
+_PARSE.update(_h(['vk_int_parse_p2_large_r2', 'vk_int_parse_p2_large_r4', 'vk_int_parse_p2_large_r8',
+                  'vk_int_parse_p2_large_r16', 'vk_int_parse_p2_large_r32'], 'bounded',
+                 '5 fully symbolic ASCII characters followed by digits_per_word - 2 concrete digits: parse and parse_large'))
 
 KANI = {
     'int_bytes': {
         'package': 'dashu-int', 'target': 'integer/src/convert.rs', 'file': 'int_bytes.rs',
-        'harnesses': {
-            'vk_int_bytes_to_small': {'kind': 'bounded', 'bound': _B3 + ' (this harness: the 1..=2 word half, which is complete for RefSmall)'},
-            'vk_int_bytes_to_large3': {'kind': 'bounded', 'bound': _B3 + ' (this harness: 3 words)'},
-            'vk_int_bytes_words_kernels': {'kind': 'bounded', 'bound': 'slices of 1..=3 fully symbolic words, FLIP in {false, true}'},
-            'vk_int_bytes_from_0_16': {'kind': 'complete', 'domain': 'every byte string of length 0..=16 (the whole fast path) x {le, be} x {unsigned, signed}'},
-            'vk_int_bytes_from_17': {'kind': 'bounded', 'bound': 'every byte string of length 17'},
-            'vk_int_bytes_from_18_23': {'kind': 'bounded', 'bound': 'every byte string of length 18..=23'},
-            'vk_int_bytes_from_24': {'kind': 'bounded', 'bound': 'every byte string of length 24'},
-            'vk_int_bytes_from_25': {'kind': 'bounded', 'bound': 'every byte string of length 25'},
-        },
+        'harnesses': _BYTES,
+    },
+    'int_chunks': {
+        'package': 'dashu-int', 'target': 'integer/src/convert.rs', 'file': 'int_chunks.rs',
+        'harnesses': _CHUNKS,
+    },
+    'int_parse_p2': {
+        'package': 'dashu-int', 'target': 'integer/src/parse/power_two.rs', 'file': 'int_parse_p2.rs',
+        'harnesses': _PARSE,
     },
 }
 
-VERUS = {
-}
-
 PROP_UNITS = {
+    'C07': {'verus': ['int_fmt_width', 'int_fmt_digits'],
+            'undecided': []},
 }
